@@ -400,6 +400,24 @@ impl Finds {
                 if tok.words.len() >= 2 {
                     let f = word_chars(&tok, 0).to_vec();
                     let l = word_chars(&tok, tok.words.len() - 1).to_vec();
+                    // the two words as they stand in the title (capitals, accents and all), typed in the other order. Judged when
+                    // both are made of letters and digits only and - the library lowers a text as a whole, and only when it holds
+                    // a capital - the pair holds a capital exactly if the title does (decided from the characters alone).
+                    let raw = |k: usize| -> Vec<char> { let w = &tok.words[k]; (w.slice.0..w.slice.1).map(|i| tok.source[i]).filter(|c| *c != '\0').collect() };
+                    let (rf, rl) = (raw(0), raw(tok.words.len() - 1));
+                    let title_has_cap = rec.1.chars().any(|c| c.is_uppercase());
+                    let pair_has_cap = rf.iter().chain(rl.iter()).any(|c| c.is_uppercase());
+                    if rf.iter().chain(rl.iter()).all(|c| c.is_alphanumeric()) && (rf != f || rl != l) && title_has_cap == pair_has_cap {
+                        let q = format!("{} {}", s(&rl), s(&rf));
+                        cx.ctx(format!("C13 lang={} title={:?} q={:?} (words as typed in the title)", lang, rec.1, q));
+                        let got = st.search_ids(&q);
+                        cx.eval();
+                        cx.key(hparts(&[lang, &rec.1, "last first as typed"]));
+                        cx.count("last first, as the words stand in the title");
+                        if !got.contains(&rec.0) {
+                            report(cx, "two-words-not-found", &q, &got, json!({"order": "last first, as the words stand in the title", "words": [s(&rl), s(&rf)]}));
+                        }
+                    }
                     for (a, b, name) in [(&f, &l, "first last"), (&l, &f, "last first")].iter() {
                         let q = format!("{} {}", s(a), s(b));
                         if !oracle::stable(lobj, &q, &[&a[..], &b[..]]) {
@@ -828,6 +846,16 @@ impl Prop for Finds {
                     let t = format!("{} {}", w1, gen::rand_word(&mut cx.rng, &deseret, 2, 7));
                     recs.push((88, t, 2));
                     cx.count("stores with a title in letters outside the BMP");
+                }
+                if idx % 40 == 17 {
+                    // a title of two or three short words that begin with a title-case letter (neither upper nor lower case:
+                    // U+01C5, U+01C8, U+01CB, U+01F2, U+1F88) followed by capitals
+                    let lt = cv("\u{1c5}\u{1c8}\u{1cb}\u{1f2}\u{1f88}");
+                    let caps = cv("AEMNZTK");
+                    let nw = 2 + (idx / 40) as usize % 2;
+                    let words: Vec<String> = (0..nw).map(|k| format!("{}{}", lt[(idx as usize / 40 + k) % lt.len()], s(&(0..2 + k % 2).map(|j| caps[(idx as usize / 7 + 3 * k + j) % caps.len()]).collect::<Vec<_>>()))).collect();
+                    recs.push((66, words.join(" "), 1));
+                    cx.count("stores with a title of words that begin with a title-case letter followed by capitals");
                 }
                 // (at fixed case numbers: a word of more than 4096 letters - some 17 million matrix cells per search)
                 let giant4k = cx.tier != Tier::Miri && idx % 1201 == 601 && idx < 48_040;
